@@ -123,17 +123,37 @@ def mapping_oracle(ctx):
 
 
 def evaluated(node):
-    """(indicator name, requirement outcome) of the node's own expression under the installed content evaluation result, via ahbicht's AHB evaluation
-    (C09/C04 are checked separately); None if the expression cannot be evaluated (invalid: C16; unresolvable; ...)"""
-    from ahbicht.expressions.ahb_expression_evaluation import evaluate_ahb_expression_tree
+    """(indicator name, requirement outcome) of the node's own expression under the installed content evaluation result, read off the PARTS of the
+    expression: every modal-mark part's condition is evaluated on its own (requirement_constraint_evaluation; C04 is checked separately), a bare
+    indicator is fulfilled, and the first fulfilled part -- else the last -- decides (the documented selection, C09; ahbicht's own selection loop is not
+    asked). None if a part cannot be evaluated (invalid: C16; unresolvable; ...)"""
+    from lark import Token, Tree
+
+    from ahbicht.expressions.requirement_constraint_expression_evaluation import requirement_constraint_evaluation
 
     res = valcorr.resolved(node[2])
-    if res[0] != "ok":
+    if res[0] != "ok" or not isinstance(res[1], Tree):
         return None
-    tag, v = evalimpl.outcome(lambda: asyncio.run(evaluate_ahb_expression_tree(res[1])))
-    if tag != "ok":
+    canon = {"M": "MUSS", "MUSS": "MUSS", "S": "SOLL", "SOLL": "SOLL", "K": "KANN", "KANN": "KANN", "X": "X", "O": "O", "U": "U"}
+    parts = []
+    for ch in res[1].children:
+        if isinstance(ch, Token):
+            parts.append((canon.get(str(ch).upper()), True))
+        elif isinstance(ch, Tree) and len(ch.children) == 2 and isinstance(ch.children[0], Token) and isinstance(ch.children[1], Tree):
+            tag, v = evalimpl.outcome(lambda ch=ch: asyncio.run(requirement_constraint_evaluation(ch.children[1])))
+            if tag != "ok":
+                return None
+            parts.append((canon.get(str(ch.children[0]).upper()), v.requirement_constraints_fulfilled))
+        elif isinstance(ch, Tree) and len(ch.children) == 1 and isinstance(ch.children[0], Token):
+            parts.append((canon.get(str(ch.children[0]).upper()), True))
+        else:
+            return None
+    if not parts or any(p[0] is None for p in parts):
         return None
-    return (v.requirement_indicator.name, v.requirement_constraint_evaluation_result.requirement_constraints_fulfilled)
+    for ind, f in parts:
+        if f:
+            return (ind, f)
+    return parts[-1]
 
 
 class _OutOfOrder(Exception):
